@@ -125,6 +125,12 @@ func c18Gen(rng *verifsim.RNG, idx int, tier string) *Plan {
 		// goes on describing what arrives
 		p.Faults = append(p.Faults, Fault{Seam: "read", From: rng.Int63n(t + 1), Count: 1, Err: []string{"ENOBUFS", "ENETDOWN"}[rng.Intn(2)]})
 		p.Class += "+receive-error"
+	} else if !strings.Contains(p.Class, "+timeouts") && rng.Bool(0.15) {
+		// ... or a run of reads interrupted or refused for lack of descriptors
+		// (EINTR, EMFILE: "temporary" as the net package sees it, but not
+		// timeouts): as many as it takes, the monitor never fails
+		p.Faults = append(p.Faults, Fault{Seam: "read", From: rng.Int63n(t + 1), Count: rng.Range(2, 9), Err: []string{"EINTR", "EMFILE"}[rng.Intn(2)]})
+		p.Class += "+receive-errors-in-a-row"
 	}
 	p.Horizon = t + 2*nsSec
 	return p
